@@ -285,6 +285,8 @@ class Mol:
 
         def bsym(k, explicit_single=False):
             if k in self.arom:
+                if getattr(self, "colon", False):
+                    return ":"         # aromatic bonds written out between upper-case atoms
                 return ":" if explicit_single else ""
             o = self.bonds[k]
             if k in stereo:
@@ -513,6 +515,14 @@ def gen_aromatic_mol(rng, tables):
             mol.bonds[(j, m)] = o
             val[j] += o
             val.append(o)
+    if rng.random() < 0.25:
+        # the same system spelt with upper-case atoms and explicit ':' bonds (C1:C:C:C:C:C:1)
+        mol.colon = True
+        for a in mol.atoms:
+            if a["aro"]:
+                a["aro"] = False
+                if a["h"] or a["ch"]:
+                    a["br"] = True
     if rng.random() < 0.2:      # a second, aliphatic fragment
         k = len(mol.atoms)
         mol.atoms.append(_new_atom(rng.choice(("C", "N", "O", "Na", "Cl")), rng.choice((0, 0, 1, -1))))
